@@ -28,6 +28,7 @@ import (
 	pruningtypes "github.com/cosmos/cosmos-sdk/store/pruning/types"
 	simtestutil "github.com/cosmos/cosmos-sdk/testutil/sims"
 	sdk "github.com/cosmos/cosmos-sdk/types"
+	"github.com/cosmos/cosmos-sdk/types/mempool"
 	authtypes "github.com/cosmos/cosmos-sdk/x/auth/types"
 	vestingtypes "github.com/cosmos/cosmos-sdk/x/auth/vesting/types"
 	banktypes "github.com/cosmos/cosmos-sdk/x/bank/types"
@@ -86,6 +87,9 @@ type NodeCfg struct {
 	InterBlock   bool   `json:"inter_block_cache"`
 	MinGasPrices string `json:"min_gas_prices"`
 	Backend      string `json:"backend"` // memdb | goleveldb
+	// Mempool: the app-side SenderNonceMempool that cmd/und configures through
+	// server.DefaultBaseappOptions (CheckTx inserts, DeliverTx removes, PrepareProposal selects)
+	Mempool bool `json:"mempool,omitempty"`
 }
 
 // Knobs fully determine the genesis document and node set of a world.
@@ -104,6 +108,7 @@ type Knobs struct {
 	GovSecs     int64     `json:"gov_secs"`
 	Balance     string    `json:"balance"` // per denom per actor
 	Nodes       []NodeCfg `json:"nodes"`   // replicas (node 0, the reference, is implicit)
+	RefMempool  bool      `json:"ref_mempool,omitempty"` // reference node runs the app-side mempool too
 }
 
 // Actor is one simulated client with a deterministic key.
@@ -305,6 +310,9 @@ func (n *Node) baseOpts() []func(*baseapp.BaseApp) {
 	}
 	if n.Cfg.InterBlock {
 		opts = append(opts, baseapp.SetInterBlockCache(store.NewCommitKVStoreCacheManager()))
+	}
+	if n.Cfg.Mempool {
+		opts = append(opts, baseapp.SetMempool(mempool.NewSenderNonceMempool()))
 	}
 	return opts
 }
